@@ -312,6 +312,88 @@ def _seq_case(seed: int) -> Dict[str, Any]:
     return {"n_checks": len(ops), "fails": fails, "nontrivial": True, "sample": {"seed": seed, "ops": len(ops)}}
 
 
+def _launch_query_vcs() -> List[core.VC]:
+    from contracts import C14
+
+    return C14.query_vcs(PROP)
+
+
+_RENUMBER_GETTERS = {
+    "temporal": lambda ta, rk: ta.get_temporal_breakdown(visualize=False),
+    "kernel": lambda ta, rk: ta.get_gpu_kernel_breakdown(visualize=False, num_kernels=3),
+    "overlap": lambda ta, rk: ta.get_comm_comp_overlap(visualize=False),
+    "launch": lambda ta, rk: ta.get_cuda_kernel_launch_stats(ranks=rk, visualize=False),
+    "queue": lambda ta, rk: ta.get_queue_length_time_series(ranks=rk),
+    "queue_summary": lambda ta, rk: ta.get_queue_length_summary(ranks=rk),
+    "idle": lambda ta, rk: ta.get_idle_time_breakdown(ranks=[0], visualize=False, show_idle_interval_stats=False),
+    "membw": lambda ta, rk: ta.get_memory_bw_time_series(ranks=rk),
+    "critical_path": lambda ta, rk: ta.critical_path_analysis(rank=0, annotation="ProfilerStep", instance_id=0),
+}
+
+
+def _renumber(ta, first: str) -> None:
+    """the same loaded trace under another numbering of its symbols: `first` gets id 0, the others follow in reversed order"""
+    from hta.common.trace_symbol_table import TraceSymbolTable
+
+    t = ta.t
+    old = list(t.symbol_table.get_sym_table())
+    order = [first] + [s for s in reversed(old) if s != first]
+    st = TraceSymbolTable()
+    st.add_symbols(order)
+    new_id = st.get_sym_id_map()
+    remap = {i: new_id[s] for i, s in enumerate(old)}
+    for rk in t.traces:
+        df = t.traces[rk]
+        for c in ("name", "cat"):
+            df[c] = df[c].map(lambda i: remap.get(int(i), int(i))).astype("int64")
+    t.symbol_table = st
+
+
+def _renumber_case(arg) -> Dict[str, Any]:
+    """Every analysis getter on one loaded trace set vs. the same getters after the symbol table was renumbered so that a chosen
+    symbol owns id 0 -- once for every symbol of the trace in the thorough tier, for the launch / sync / category names and a sample otherwise."""
+    from hv import gen, history, rt
+
+    seed, thorough = arg
+    per_rank = gen.gen_trace_set(seed, n_ranks=1 + seed % 2, steps=2, n_top=2, n_streams=2, p_launch=0.8, p_memcpy=0.3, p_sync=0.2)
+    fails: List[Dict[str, Any]] = []
+    n = 0
+    with rt.trace_dir(per_rank) as d:
+        base = rt.load_analysis(d)
+        ranks = sorted(base.t.traces)
+        ref = {}
+        for k, g in _RENUMBER_GETTERS.items():
+            try:
+                ref[k] = history.canon(g(base, ranks))
+            except Exception as e:  # noqa: BLE001  (judged by the property that owns the getter)
+                ref[k] = f"EXC {type(e).__name__}"
+        syms = list(base.t.symbol_table.get_sym_table())
+        special = [s for s in syms if s.startswith(("cuda", "cu", "hip")) or s in ("kernel", "gpu_memcpy", "gpu_memset", "cpu_op", "cuda_runtime", "user_annotation", "Context Sync", "Event Sync", "Stream Sync")
+                   or s.startswith(("ProfilerStep", "Memcpy", "Memset", "nccl"))]
+        chosen = syms if thorough else (special + syms[:: max(1, len(syms) // 4)])[:14]
+        for first in dict.fromkeys(chosen):
+            ta = rt.load_analysis(d)
+            _renumber(ta, first)
+            for k, g in _RENUMBER_GETTERS.items():
+                try:
+                    got = history.canon(g(ta, ranks))
+                except Exception as e:  # noqa: BLE001
+                    got = f"EXC {type(e).__name__}"
+                n += 1
+                if got != ref[k] and len(fails) < 3:
+                    fails.append({"what": f"renumbered.{k}", "input": {"seed": seed, "symbol_given_id_0": first, "events": per_rank}, "observed": repr(got)[:500], "expected": repr(ref[k])[:500]})
+    return {"n_checks": n, "fails": fails, "nontrivial": n > 0, "sample": {"seed": seed, "symbols": len(syms), "renumberings": len(set(chosen))}}
+
+
+def bounded_renumber(ctx):
+    from hv import rt
+
+    n = 4 if not ctx.thorough else 16
+    res = rt.pmap(_renumber_case, [(ctx.seed * 53 + 9000 + i, ctx.thorough) for i in range(n)], ctx.procs)
+    return rt.summarise(res, f"{PROP}.renumbered", f"{n} generated trace sets: nine getters (breakdowns, overlap, launch statistics, queue length, memory bandwidth, idle time, critical path) on the loaded trace vs. "
+                        "the same trace after its symbol table was renumbered so that a chosen symbol owns id 0 (every launch / sync / category / step name and a sample of the others; every symbol in the thorough tier)")
+
+
 def bounded_matrix(ctx):
     from hv import rt
 
@@ -332,6 +414,7 @@ def bounded_seq(ctx):
 def units(ctx):
     return [core.Unit(f"{PROP}.add_symbols", add_symbols_vcs, [ST + ".TraceSymbolTable.add_symbols"]),
             core.Unit(f"{PROP}.reencode", reencode_vcs, [TR + ".Trace.parse_multiple_ranks", TR + ".Trace.parse_single_rank", ST + ".TraceSymbolTable.update_encoded_df"]),
+            core.Unit(f"{PROP}.launch_query", _launch_query_vcs, [ST + ".TraceSymbolTable.get_runtime_launch_events_query"]),
             core.Unit(f"{PROP}.structure", structure_vcs, [ST + ".TraceSymbolTable.clone", ST + ".TraceSymbolTable.combine_symbol_tables", ST + ".TraceSymbolTable.add_symbols_mp"])]
 
 
@@ -339,8 +422,8 @@ SPEC = Spec(
     prop=PROP, level="other",
     functions=[(ST, "TraceSymbolTable.add_symbols"), (ST, "TraceSymbolTable.add_symbols_mp"), (ST, "TraceSymbolTable.clone"), (ST, "TraceSymbolTable.combine_symbol_tables"),
                (ST, "TraceSymbolTable.encode_df"), (ST, "TraceSymbolTable.decode_df"), (ST, "TraceSymbolTable.update_encoded_df"), (TR, "Trace.parse_single_rank"),
-               (TR, "Trace.parse_multiple_ranks"), (TP, "_compress_df")],
-    units=units, bounded=[Bounded("numbering_independence_matrix", bounded_matrix), Bounded("add_sequences", bounded_seq)],
+               (TR, "Trace.parse_multiple_ranks"), (TP, "_compress_df"), (ST, "TraceSymbolTable.get_runtime_launch_events_query")],
+    units=units, bounded=[Bounded("numbering_independence_matrix", bounded_matrix), Bounded("add_sequences", bounded_seq), Bounded("renumbered_symbol_table", bounded_renumber)],
     trusted=["multiprocessing.Pool.map returns results in argument order; Manager().Queue drain yields some permutation of what was put",
              "python list.append / dict insertion / `in` as modelled by PyVC (arrays + quantifiers)"],
     explanation="Proved: the bijection / prefix-stability / presence invariant of add_symbols for every input sequence, and that every (re-)encoding and decoding lambda preserves the "
